@@ -527,7 +527,16 @@ func (x *Exec) step(st *State, fr *Frame, ins ssa.Instruction) {
 		x.note("go statement in %s: body not executed (concurrent body, sequential reasoning only)", fr.fn.Name())
 		x.havocGoEffects(st, fr, ins.Common())
 	case *ssa.Send:
-		x.note("channel send abstracted as no-op in %s", fr.fn.Name())
+		// a send is a no-op on tracked state; if the package declares the ghost
+		// counter `chansends` it counts the sends (so "an event is emitted exactly
+		// when ..." can be a postcondition)
+		if g, ok := st.ghost["chansends"]; ok {
+			g.S = mkAdd(g.S, "1")
+			st.ghost["chansends"] = g
+			x.note("channel send counted in ghost chansends in %s", fr.fn.Name())
+		} else {
+			x.note("channel send abstracted as no-op in %s", fr.fn.Name())
+		}
 	case *ssa.Select:
 		x.note("select abstracted as nondeterministic choice in %s", fr.fn.Name())
 		fr.regs[ins] = x.symbolic(st, ins.Type(), "select")
